@@ -2,9 +2,13 @@ package main
 
 import (
 	"fmt"
+	"go/token"
+	"go/types"
 	"regexp"
 	"strings"
 	"time"
+
+	"golang.org/x/tools/go/ssa"
 )
 
 // c14Replay: the OpenVPN replay timestamp window. The documentation of the matcher promises that a timestamp of up
@@ -218,6 +222,7 @@ func c14DNSRule(c *Ctx, r *Report, rule string) {
 		{class: "IN", typ: "A", name: "example.com."},
 		{classRe: "^IN$", typRe: "^A+$", nameRe: "^example"},
 		{class: "IN", typRe: "^(A|AAAA)$", nameRe: `\.com\.$`},
+		{typ: "A"}, {typRe: "X"}, {classRe: "H"}, {nameRe: "z"}, {class: "X"}, {name: "."},
 	}
 	type q struct{ class, typ, name string }
 	qs := []q{{"IN", "A", "example.com."}, {"IN", "MX", "example.org."}, {"CH", "TXT", "version.bind."}, {"IN", "AAAA", "www.example.com."}, {"IN", "A", "example.org."}}
@@ -398,5 +403,84 @@ func c14ClockWindow(c *Ctx, r *Report, rule string) {
 			}
 		}
 		r.check(len(mprob) == 0, rule, fname(match), name+" times around the edges", c.pos(match.Pos()), "matches exactly inside the window", strings.Join(dedup(mprob), "; "))
+	}
+}
+
+// c14SeparateObjects: what provisioning prepares per purpose stays per purpose. Where a matcher's Provision stores
+// pointers into two different fields of the matcher (the OpenVPN group key for the auth mode, which carries the
+// configured key direction, and the one for the crypt mode, whose direction is fixed), the two fields never receive
+// the same object: a later write through one (direction flags) would silently change the other.
+func c14SeparateObjects(c *Ctx, r *Report, rule string) {
+	r.rule(rule, "objects prepared per purpose are separate: in a matcher's provisioning code two different pointer fields of the matcher never receive the same freshly made object (a flag set through one would change the other)", 1)
+	cm := c.iface("layer4", "ConnMatcher")
+	if cm == nil {
+		r.bad(rule, "layer4.ConnMatcher", "exists", "-", "interface not found")
+		return
+	}
+	n := 0
+	for _, match := range c.implementors(cm, "Match") {
+		recvT := match.Signature.Recv().Type()
+		prov := methodOf(c, types.NewPointer(deref(recvT)), "Provision")
+		if prov == nil || len(prov.Blocks) == 0 {
+			continue
+		}
+		sn := namedName(deref(recvT))
+		type fstore struct {
+			field string
+			st    *ssa.Store
+			fn    *ssa.Function
+		}
+		var stores []fstore
+		for _, h := range sortedFuncs(c.reachSync(prov)) {
+			if h.Pkg != prov.Pkg {
+				continue
+			}
+			for _, b := range h.Blocks {
+				for _, in := range b.Instrs {
+					st, ok := in.(*ssa.Store)
+					if !ok {
+						continue
+					}
+					_, ssn, f, ok := fieldAddr(st.Addr)
+					if !ok || ssn != sn || token.IsExported(f) {
+						continue
+					}
+					if _, isPtr := st.Val.Type().Underlying().(*types.Pointer); !isPtr {
+						continue
+					}
+					stores = append(stores, fstore{f, st, h})
+				}
+			}
+		}
+		allocs := func(v ssa.Value) map[ssa.Value]bool {
+			out := map[ssa.Value]bool{}
+			for _, o := range origins(v, sliceOpts{}) {
+				if o.Kind == "alloc" && o.V != nil {
+					out[o.V] = true
+				}
+			}
+			return out
+		}
+		for i := 0; i < len(stores); i++ {
+			for j := i + 1; j < len(stores); j++ {
+				a, b := stores[i], stores[j]
+				if a.field == b.field || a.fn != b.fn || !types.Identical(a.st.Val.Type(), b.st.Val.Type()) {
+					continue
+				}
+				n++
+				shared := false
+				bs := allocs(b.st.Val)
+				for v := range allocs(a.st.Val) {
+					if bs[v] {
+						shared = true
+					}
+				}
+				k := fmt.Sprintf("%s.%s / %s.%s #%d", sn, a.field, sn, b.field, n)
+				r.check(!shared, rule, fname(a.fn), k, c.ipos(a.st), "distinct objects", "the fields "+a.field+" and "+b.field+" receive the same object: what is set through one (e.g. the key direction of the auth mode) also changes what the other purpose uses")
+			}
+		}
+	}
+	if n == 0 {
+		r.bad(rule, "matchers", "pointer fields prepared in pairs", "-", "no pair of provisioned pointer fields found (rule has no instance)")
 	}
 }
